@@ -1025,6 +1025,7 @@ def d2_atomic(ck, R):
         P = P_inplace
     R.PI, R.P, R.NM, R.NA = PI, P, NM, NA
     _candidate_centres(ck, R)
+    _guarded(ck, 'C09.D2.atomic.partition', _candidate_partition, ck, R)
 
 
 def _candidate_centres(ck, R):
@@ -1154,6 +1155,362 @@ def _candidate_centres(ck, R):
         else:
             ck.missing(rule, 'centre list `%s` handed to `%s`: no store `%s[%s] = <proposed coordinate>` recognised before the call'
                        % (L, u(c)[:80], L, R.cid))
+
+
+# ---------------------------------------------------------------------------
+# D2 (cont.): the candidate arrays are filled cell by cell
+
+_ALLOC_CALLS = {'zeros_like', 'empty_like', 'full_like', 'ones_like', 'zeros', 'empty', 'full', 'ones'}
+
+
+def _strip_sub(e):
+    while isinstance(e, ast.Subscript):
+        e = e.value
+    return e
+
+
+def _candidate_partition(ck, R):
+    """The candidate distances / labels are built by masked stores.  Relative to the proposed centre every
+    frame falls into one of six cells: (its current distance D is <, == or > its distance N to the proposed
+    centre) x (it currently belongs to the centre being replaced, or to another one).  The masks are boolean
+    formulas over exactly these atoms, so the value each cell finally receives (the LAST store whose mask covers
+    it) is decided by a truth table:
+      * a cell no store covers keeps the sentinel of the allocation: the candidate has unset entries;
+      * D > N: the frame moves to the proposed centre (N, <centre id>);
+      * D <= N and another centre: it keeps (D, current label);
+      * D <= N and the replaced centre: its centre is gone, it is re-assigned against the candidate centres
+        (keeping D there records the distance to a frame that is no longer a centre);
+      * distance and label of one cell come from the same source (N with the centre id, D with the current
+        label, both results of one re-assignment call).
+    On ties (D == N) either source is the same number."""
+    rule = 'C09.D2.atomic.partition'
+    mod, fn, fi, loop = R.mod, R.fn, R.fi, R.loop
+    CD, CA = R.cand_dist, getattr(R, 'NA', None)
+    if not CD or not CA:
+        ck.missing(rule, 'candidate distances / labels not located (see C09.D1.accept, C09.D2.atomic.values)')
+        return
+    D, A, cid = R.D, R.A, R.cid
+    mcalls = [c for c in calls_in(loop) if isinstance(c.func, ast.Name) and c.func.id == R.metric
+              and fi.defs_of_use(c.func) == {'PARAM'}]
+    nst = [fi.stmt(c) for c in mcalls]
+    if len(mcalls) != 1 or not (isinstance(nst[0], ast.Assign) and nst[0].value is mcalls[0] and len(nst[0].targets) == 1
+                                and isinstance(nst[0].targets[0], ast.Name)):
+        ck.missing(rule, 'exactly one `<N> = %s(<data>, <proposed coordinate>)` in the per-centre loop (found %d calls)' % (R.metric, len(mcalls)))
+        return
+    N = nst[0].targets[0].id
+    stop = (D, A, N, cid, R.X)
+
+    def cell_eval(tree, rel, own):
+        k = tree[0]
+        if k == 'and':
+            a, b = cell_eval(tree[1], rel, own), cell_eval(tree[2], rel, own)
+            return None if a is None or b is None else (a and b)
+        if k == 'or':
+            a, b = cell_eval(tree[1], rel, own), cell_eval(tree[2], rel, own)
+            return None if a is None or b is None else (a or b)
+        if k == 'not':
+            a = cell_eval(tree[1], rel, own)
+            return None if a is None else not a
+        if k == 'atom':
+            c = tree[1]
+            tl, tr = u(c.lhs), u(c.rhs)
+            op = c.op
+            if {tl, tr} == {D, N} and tl != tr:
+                x = {'lt': -1, 'eq': 0, 'gt': 1}[rel] * (1 if tl == D else -1)
+                table = {ast.Lt: x < 0, ast.LtE: x <= 0, ast.Gt: x > 0, ast.GtE: x >= 0, ast.Eq: x == 0, ast.NotEq: x != 0}
+                return table.get(op)
+            if {tl, tr} == {A, cid} and tl != tr and op in (ast.Eq, ast.NotEq):
+                return own if op is ast.Eq else not own
+        return None
+
+    def reassigned(e):
+        """(call, k) when the Name `e` is element k of `<a>, <d> = assign_to_nearest_center(...)`."""
+        if not isinstance(e, ast.Name):
+            return None
+        try:
+            ds = fi.defs_of_use(e)
+        except Exception:
+            return None
+        if len(ds) != 1:
+            return None
+        d = next(iter(ds))
+        if not (isinstance(d, ast.Assign) and isinstance(d.value, ast.Call) and _last(call_name(d.value)) == 'assign_to_nearest_center'
+                and len(d.targets) == 1 and isinstance(d.targets[0], ast.Tuple) and len(d.targets[0].elts) == 2):
+            return None
+        for k, t in enumerate(d.targets[0].elts):
+            if isinstance(t, ast.Name) and t.id == e.id:
+                return d.value, k
+        return None
+
+    from ..patterns import mask_atoms
+    cells = [(rel, own) for rel in ('lt', 'eq', 'gt') for own in (True, False)]
+    final = {}
+    order = {}
+    for arr, kind in ((CD, 'dist'), (CA, 'label')):
+        stores = [(s_, t) for s_, t in subscript_stores(loop, arr)]
+        if not stores:
+            ck.missing(rule, 'candidate array `%s` is not filled by subscript stores' % arr)
+            return
+        stores.sort(key=lambda st: (getattr(st[0], 'lineno', 0), getattr(st[0], 'col_offset', 0)))
+        for (a, _), (b, _) in zip(stores, stores[1:]):
+            if not (fi.cfg.dominates(a, b) and fi.cfg.postdominates(b, a)):
+                ck.missing(rule, 'stores into `%s` are not one straight-line sequence (`%s` / `%s`)' % (arr, u(a)[:50], u(b)[:50]))
+                return
+        # the allocation
+        ds = fi.rd.defs_at(stores[0][0], arr)
+        init = 'U'
+        if len(ds) == 1:
+            d0 = next(iter(ds))
+            v0 = fi.def_value(d0, arr) if isinstance(d0, (ast.Assign, ast.AnnAssign)) and _inside(mod, d0, loop) else None
+            if v0 is not None:
+                e0 = fi.expand(v0, stop=stop)
+                names = names_loaded(e0) - {'np', 'numpy'}
+                if any(isinstance(x, ast.Call) and _last(call_name(x)) in _ALLOC_CALLS for x in walk_expr(e0)) and names <= {D, A}:
+                    init = 'S'
+                elif classify(e0, _same_value_forms(D if kind == 'dist' else A), scope={D, A})[0] == 'match':
+                    init = 'D' if kind == 'dist' else 'A'
+        table = {c: (init, None) for c in cells}
+        for s_, t in stores:
+            if not (isinstance(s_, ast.Assign) and len(s_.targets) == 1 and s_.targets[0] is t):
+                ck.missing(rule, 'store `%s`' % u(s_)[:80])
+                return
+            mk = fi.expand(t.slice, strict=False, stop=stop)
+            mtxt = u(canon(mk))
+            everywhere = isinstance(mk, ast.Slice) and mk.lower is None and mk.upper is None and mk.step is None
+            tree = None if everywhere else mask_atoms(canon(mk))
+            ve = canon(fi.expand(s_.value, strict=False, stop=stop))
+            src = 'U'
+
+            def same_mask(e):
+                return isinstance(e, ast.Subscript) and isinstance(e.value, ast.Name) and u(canon(e.slice)) == mtxt
+            if isinstance(ve, ast.Constant) or (isinstance(ve, ast.UnaryOp) and isinstance(ve.operand, ast.Constant)):
+                src = 'S'
+            elif kind == 'label' and isinstance(ve, ast.Name) and ve.id == cid:
+                src = 'C'
+            elif same_mask(ve) and ve.value.id == N and kind == 'dist':
+                src = 'N'
+            elif same_mask(ve) and ve.value.id == (D if kind == 'dist' else A):
+                src = 'D' if kind == 'dist' else 'A'
+            else:
+                ra = reassigned(_orig_name(fi, s_.value))
+                if ra is not None:
+                    call, k = ra
+                    a0 = call.args[0] if call.args else None
+                    a0x = canon(fi.expand(a0, strict=False, stop=stop)) if a0 is not None else None
+                    if a0x is not None and same_mask(a0x) and a0x.value.id == R.X and k == (1 if kind == 'dist' else 0):
+                        src = ('R', id(call))
+                    elif a0x is not None and same_mask(a0x) and a0x.value.id == R.X:
+                        ck.bad(rule, mod, s_, PAM, u(s_)[:160],
+                               'assign_to_nearest_center returns (labels, distances): the candidate %s `%s` take element %d'
+                               % ('distances' if kind == 'dist' else 'labels', arr, k))
+                        return
+            for c in cells:
+                hit = True if everywhere else cell_eval(tree, *c)
+                if hit is None:
+                    ck.missing(rule, 'index `%s` of the store `%s` is not a formula over (%s vs %s) and (%s == %s)' % (
+                        mtxt[:80], u(s_)[:60], D, N, A, cid))
+                    return
+                if hit:
+                    table[c] = (src, s_)
+        final[kind] = table
+        order[kind] = stores
+
+    def describe(c):
+        rel, own = c
+        return '%s %s %s and %s %s %s' % (D, {'lt': '<', 'eq': '==', 'gt': '>'}[rel], N, A, '==' if own else '!=', cid)
+    problems, unknown = [], []
+    for c in cells:
+        rel, own = c
+        (vd, sd), (va, sa) = final['dist'][c], final['label'][c]
+        if vd == 'S' or va == 'S':
+            which = CD if vd == 'S' else CA
+            problems.append((sd or sa or loop, 'frames with %s' % describe(c),
+                             'no store into the candidate %s covers the frames with %s: their entries keep the value of the allocation '
+                             '(an unset sentinel), so the candidate whose cost is compared - and committed on acceptance - is not a '
+                             'clustering of all frames' % (which, describe(c))))
+            continue
+        if 'U' in (vd, va):
+            unknown.append('%s: (%s, %s)' % (describe(c), vd, va))
+            continue
+        isR = isinstance(vd, tuple) and isinstance(va, tuple)
+        if isR and vd[1] == va[1]:
+            continue
+        if isinstance(vd, tuple) or isinstance(va, tuple):
+            unknown.append('%s: distance and label from different sources' % describe(c))
+            continue
+        lab = 'C' if (va == 'A' and own) else va           # on the frames of the replaced centre the current label IS the centre id
+        if rel == 'eq':
+            if lab in ('C', 'A'):
+                continue
+        if vd == 'D' and own and rel != 'eq':
+            problems.append((sd, 'frames with %s keep %s' % (describe(c), D),
+                             'the frames of the centre being replaced (%s) keep their current distance `%s`: that is the distance to a '
+                             'frame which is no longer a centre in the candidate; they have to be re-assigned against the candidate '
+                             'centres (or take `%s` where the proposed centre is closer)' % (describe(c), D, N)))
+            continue
+        if (vd, lab) in (('N', 'A'), ('D', 'C')) and not own:
+            problems.append((sd, 'frames with %s: distance from %s, label from %s' % (describe(c), vd, va),
+                             'for the frames with %s the candidate distance is %s but the candidate label is %s: labels and distances '
+                             'of the candidate go out of step' % (describe(c), 'the distance to the proposed centre' if vd == 'N' else
+                                                                  'the current distance', 'the current label' if lab == 'A' else 'the centre being replaced')))
+            continue
+        want = ('N', 'C') if rel == 'gt' else (('D', 'A') if not own else None)
+        if want is not None and (vd, lab) == want:
+            continue
+        unknown.append('%s: (%s, %s)' % (describe(c), vd, va))
+    if problems:
+        node, construct, why = problems[0]
+        ck.bad(rule, mod, node, PAM, construct, why)
+        return
+    if unknown:
+        ck.missing(rule, 'filling of the candidate arrays not recognised for the frames with ' + '; '.join(unknown)[:300])
+        return
+    ck.ok(rule, mod, loop, 'candidate arrays %s / %s: six cells of (%s vs %s) x (%s == %s)' % (CD, CA, D, N, A, cid),
+          'every frame receives (N, centre id), (D, current label) or the result of the re-assignment, as its cell requires')
+
+
+# ---------------------------------------------------------------------------
+# D3 (cont.): the data and the metric keep their places through every call level
+
+def d3_data_metric(ck, R):
+    """A metric is called as metric(<frames>, <one frame>); every function of the chain takes (data, metric)
+    as its first two parameters.  At each call the argument that arrives in a callee's METRIC place must not
+    be the caller's DATA and vice versa.  The places of a helper outside the chain are taken from direct
+    evidence in its body: the parameter that is called, and the parameter its call is applied to."""
+    rule = 'C09.D3.data-metric'
+    mod = ck.repo.mod(KM)
+    chain = [q for q in ('kmedoids', INPUTS, INPUTS + '_mpi', SWEEPS, PAM) if q in mod.functions]
+    through = ('check_random_state', '_get_distance_method')
+
+    def evidence(h):
+        ps = params(h)
+        called = {c.func.id for c in calls_in(h) if isinstance(c.func, ast.Name) and c.func.id in ps}
+        if len(called) != 1:
+            return None
+        m = next(iter(called))
+        data = set()
+        for c in calls_in(h):
+            if isinstance(c.func, ast.Name) and c.func.id == m:
+                for a in c.args:
+                    b = _strip_sub(a)
+                    if isinstance(b, ast.Name) and b.id in ps and b.id != m:
+                        data.add(b.id)
+        return (next(iter(data)) if len(data) == 1 else None, m)
+
+    def places(name, call):
+        """(module of the callee, callee, data parameter, metric parameter) or None."""
+        cn = call_name(call) or ''
+        if cn == name and name in chain:
+            h = mod.functions[name]
+            ps = params(h)
+            return (mod, h, ps[0], ps[1]) if len(ps) >= 2 else None
+        if cn == name and name in mod.functions and isinstance(mod.functions[name], ast.FunctionDef):
+            ev = evidence(mod.functions[name])
+            return (mod, mod.functions[name]) + ev if ev else None
+        if cn.startswith('util.'):
+            try:
+                cu = ck.repo.mod(CU)
+            except AnalysisIncomplete:
+                return None
+            h = cu.functions.get(name)
+            ev = evidence(h) if isinstance(h, ast.FunctionDef) else None
+            return (cu, h) + ev if ev else None
+        return None
+
+    n = 0
+    for q in chain:
+        fn = mod.functions[q]
+        ps = params(fn)
+        if len(ps) < 2:
+            continue
+        X, M = ps[0], ps[1]
+        fi = finfo(mod, fn)
+        for c in calls_in(fn):
+            # a direct call of the metric
+            if isinstance(c.func, ast.Name) and c.func.id == M and fi.defs_of_use(c.func) == {'PARAM'} and len(c.args) == 2 and not c.keywords:
+                r0 = _param_root(fi, _strip_sub(c.args[0]), through)
+                r1 = _param_root(fi, _strip_sub(c.args[1]), through)
+                n += 1
+                if r0 == X:
+                    ck.ok(rule, mod, c, '%s: %s' % (q, u(c)[:100]), 'metric(<frames of the data>, <one frame>)')
+                elif r1 == X and r0 != X and isinstance(c.args[1], ast.Name):
+                    ck.bad(rule, mod, c, q, u(c)[:120],
+                           'the metric takes (frames, one frame) and returns one distance per frame of its FIRST argument: here the '
+                           'whole data `%s` is the second argument and `%s` the first, so the result is not the distance of every '
+                           'frame to the proposed centre' % (X, u(c.args[0])[:40]))
+                continue
+            pl = places(_last(call_name(c)), c)
+            if pl is None:
+                continue
+            cmod, h, dp, mp = pl
+            b = _bind(c, h, cmod)
+            if b is None or mp not in b:
+                continue
+            if dp is None or dp not in b:
+                # only the metric place of the helper is known
+                rm = _param_root(fi, _strip_sub(b[mp]), through)
+                n += 1
+                if rm == M:
+                    ck.ok(rule, mod, c, '%s -> %s: %s=%s' % (q, h.name, mp, u(b[mp])[:30]), 'the metric arrives in the metric place')
+                elif rm == X:
+                    ck.bad(rule, mod, c, q, '%s(%s=%s)' % (h.name, mp, u(b[mp])[:40]),
+                           '%s hands its data `%s` to the metric place `%s` of %s' % (q, X, mp, h.name))
+                continue
+            rd = _param_root(fi, _strip_sub(b[dp]), through)
+            rm = _param_root(fi, _strip_sub(b[mp]), through)
+            n += 1
+            if rd == X and rm == M:
+                ck.ok(rule, mod, c, '%s -> %s: %s=%s, %s=%s' % (q, h.name, dp, u(b[dp])[:30], mp, u(b[mp])[:30]), 'data and metric keep their places')
+            elif rd == M or rm == X:
+                ck.bad(rule, mod, c, q, '%s(%s=%s, %s=%s)' % (h.name, dp, u(b[dp])[:40], mp, u(b[mp])[:40]),
+                       '%s hands its %s to the %s place of %s: the data `%s` and the metric `%s` are exchanged on the way to the sweeps, '
+                       'so no sweep can run on the caller\'s data' % (q, 'metric `%s`' % M if rd == M else 'data `%s`' % X,
+                                                                      'data (`%s`)' % dp if rd == M else 'metric (`%s`)' % mp, h.name, X, M))
+    ck.floor(rule, n, 3, 'calls that pass the data and the metric on')
+
+
+# ---------------------------------------------------------------------------
+# D9 (cont.): sanity assertions inside the sweep hold for every valid candidate
+
+def d9_sweep_asserts(ck, R):
+    """Distances are >= 0 and the distance of a centre to itself is 0; labels are 0 .. k-1 and label 0 is in
+    use.  An assertion inside the PAM update that compares a located array (current / candidate distances or
+    labels) with a numeric literal must admit these values, else every sweep stops with an AssertionError."""
+    rule = 'C09.D9.sweep-asserts'
+    if R is None:
+        return
+    mod, fn, fi = R.mod, R.fn, R.fi
+    kinds = {R.D: 'dist', R.A: 'label'}
+    if R.cand_dist:
+        kinds[R.cand_dist] = 'dist'
+    if getattr(R, 'NA', None):
+        kinds[R.NA] = 'label'
+    n = 0
+    for s in walk_local(fn):
+        if not isinstance(s, ast.Assert):
+            continue
+        cs = conjuncts(_unwrap_truth(canon(fi.expand(s.test, strict=False, stop=tuple(kinds)))), True)
+        for c in (cs or []):
+            if not isinstance(c, Cmp) or c.as_less() is None:
+                continue
+            small, strict, big = c.as_less()
+            for arr, lit, side in ((big, small, 'lower'), (small, big, 'upper')):
+                k = const_value(lit)
+                if not (isinstance(arr, ast.Name) and arr.id in kinds and isinstance(k, (int, float)) and not isinstance(k, bool)):
+                    continue
+                n += 1
+                kind = kinds[arr.id]
+                if side == 'lower':
+                    okv = k < 0 or (k == 0 and not strict)
+                    wit = ('a centre is at distance 0 from itself' if kind == 'dist' else 'the frames of centre 0 carry label 0')
+                else:
+                    okv = k > 0
+                    wit = ('a frame that is not a centre has a positive distance' if kind == 'dist' else 'with two clusters some frame carries label 1')
+                ck.check(okv, rule, mod, s, PAM, 'assert on %s `%s`: %s' % ('distances' if kind == 'dist' else 'labels', arr.id, c),
+                         'the assertion admits every valid value',
+                         '`%s` does not hold for a valid state (%s): every sweep stops with an AssertionError' % (u(s)[:100], wit))
+    if n == 0:
+        ck.ok(rule, mod, fn, '%s: no assertion bounds a state array by a literal' % PAM, 'nothing to decide')
 
 
 # ---------------------------------------------------------------------------
@@ -2343,6 +2700,54 @@ def _rooted_in(e, D, depth=6):
     return False
 
 
+def _root_at(fi, stmt, name, through, depth=4):
+    """Parameter whose value the NAME `name` denotes at statement `stmt` (by name, for expanded copies of
+    expressions whose nodes are not in the def-use tables): a parameter, or a single definition
+    `name = <through>(<name2>)` / `name = <name2>` followed back."""
+    while depth > 0:
+        depth -= 1
+        ds = fi.rd.defs_at(stmt, name)
+        if ds == {'PARAM'}:
+            return name
+        if len(ds) != 1:
+            return None
+        d = next(iter(ds))
+        if d in ('PARAM', 'UNBOUND') or not isinstance(d, (ast.Assign, ast.AnnAssign)):
+            return None
+        v = fi.def_value(d, name)
+        if isinstance(v, ast.Call) and _last(call_name(v)) in through and len(v.args) == 1 and not v.keywords:
+            v = v.args[0]
+        if not isinstance(v, ast.Name):
+            return None
+        stmt, name = d, v.id
+    return None
+
+
+def _positive_metric_bound(fi, stmt, bound, metric, strict):
+    """`bound` is a sum of numeric literals and values of the metric (calls that receive the metric parameter,
+    absolute values) whose literal part is positive (or zero under a strict comparison): it is > 0 (>= 0 resp.)
+    whatever the data, so it cannot bound a self-distance from below."""
+    terms, stack = [], [bound]
+    while stack:
+        e = stack.pop()
+        if isinstance(e, ast.BinOp) and isinstance(e.op, ast.Add):
+            stack += [e.left, e.right]
+        else:
+            terms.append(e)
+    k, measured = 0, 0
+    for t in terms:
+        c = const_value(t)
+        if isinstance(c, (int, float)) and not isinstance(c, bool):
+            k += c
+        elif isinstance(t, ast.Call) and (_last(call_name(t)) in ('abs', 'absolute', 'fabs') or (
+                metric is not None and any(_root_at(fi, stmt, a.id, ('_get_distance_method',)) == metric
+                                           for a in list(t.args) + [kw.value for kw in t.keywords] if isinstance(a, ast.Name)))):
+            measured += 1
+        else:
+            return False
+    return k > 0
+
+
 def d9_start_state_asserts(ck):
     """The property is quantified over ALL metrics; with d, c*d is a metric for
     every c > 0, and floating-point metrics return their self-distance only up
@@ -2406,12 +2811,751 @@ def d9_start_state_asserts(ck):
                                '4e-4 x radius of gyration, > 0.001 for ordinary proteins), so a CONSISTENT start state - e.g. the '
                                'state k-hybrid itself returned - fails the assertion and no sweep runs. The bound must be measured '
                                'with the same metric (the self-distance of the centre frames)' % (u(s)[:100], k))
+                elif side == 'lower' and _positive_metric_bound(fi, s, bound, params(fn)[1] if len(params(fn)) > 1 else None, strict):
+                    ck.bad(rule, mod, s, 'kmedoids', construct + ' (bound %s)' % u(bound)[:60],
+                           '`%s` bounds the start distances of the centres from BELOW by `%s`, a positive constant plus a value of the '
+                           'metric (>= 0). In a consistent start state the distance of a centre to itself is exactly its self-distance '
+                           '(0 for an exact metric), so the assertion fails for every consistent state - cold start, warm start and '
+                           'the state k-hybrid hands over - and no sweep runs' % (u(s)[:100], u(bound)[:60]))
                 elif names_loaded(bound):
                     ck.ok(rule, mod, s, u(s)[:120], 'the bound carries a data-dependent term (%s)' % ', '.join(sorted(names_loaded(bound)))[:80])
                 else:
                     ck.missing(rule, 'bound of the assertion `%s`' % u(s)[:100])
     if n == 0:
         ck.ok(rule, mod, fn, 'kmedoids: no assertion bounds the start distances', 'nothing to decide')
+
+
+# ---------------------------------------------------------------------------
+# D8 (cont.): every admitted start configuration reaches the sweeps
+#
+# A small symbolic walker over the statements of one function for ONE abstract
+# configuration of its parameters ("mode": which of the optional arguments are
+# None, whether the centre indices are plain frame numbers or (owner, frame)
+# pairs, serial run).  Purely syntactic: conditions are evaluated over a finite
+# abstract domain (None / not None / number / sequence of numbers / sequence of
+# pairs / symbolic length / bool / unknown); an unknown condition forks the path.
+# Nothing of the analysed code is executed.
+
+class _Crash(Exception):
+    def __init__(self, node, why):
+        Exception.__init__(self, why)
+        self.node, self.why = node, why
+
+
+class _TooMany(Exception):
+    pass
+
+
+_NONE, _UNK, _OBJ, _SCALAR = ('none',), ('unk',), ('obj',), ('scalar',)
+_PAIR = ('seq', _SCALAR, 2)
+
+
+def _seq(elem=None, n=None):
+    return ('seq', elem, n)
+
+
+def _truth(av):
+    k = av[0]
+    if k == 'none':
+        return False
+    if k == 'bool':
+        return av[1]
+    if k == 'int':
+        return av[1] != 0
+    return None
+
+
+def _notnone(av):
+    return av[0] in ('obj', 'scalar', 'seq', 'int', 'bool', 'len', 'tuple')
+
+
+def _av_compare(op, a, b):
+    """True / False / None (unknown) for `a <op> b` over abstract values."""
+    if isinstance(op, (ast.Is, ast.IsNot, ast.Eq, ast.NotEq)):
+        pos = isinstance(op, (ast.Is, ast.Eq))
+        if a == _NONE and b == _NONE:
+            return pos
+        if isinstance(op, (ast.Is, ast.IsNot)) and ((a == _NONE and _notnone(b)) or (b == _NONE and _notnone(a))):
+            return not pos
+        if isinstance(op, (ast.Eq, ast.NotEq)):
+            if (a == _NONE and b[0] in ('int', 'bool', 'scalar', 'len')) or (b == _NONE and a[0] in ('int', 'bool', 'scalar', 'len')):
+                return not pos
+            if a[0] == b[0] and a[0] in ('int', 'bool'):
+                return (a[1] == b[1]) == pos
+            if a[0] == 'len' and b[0] == 'len' and a[1] == b[1]:
+                return pos
+        return None
+    if isinstance(op, (ast.Lt, ast.LtE, ast.Gt, ast.GtE)):
+        if a[0] == 'int' and b[0] == 'int':
+            x, y = a[1], b[1]
+            return {ast.Lt: x < y, ast.LtE: x <= y, ast.Gt: x > y, ast.GtE: x >= y}[type(op)]
+        if a[0] == 'len' and b[0] == 'len' and a[1] == b[1]:
+            return isinstance(op, (ast.LtE, ast.GtE))
+    return None
+
+
+class _Path(object):
+    def __init__(self, env):
+        self.env = dict(env)
+        self.definite = True
+        self.reached = set()
+        self.maybe = set()
+        self.soft = []          # (node, why): a crash on an operand that may not be evaluated
+        self.done = None
+        self.attrs = {}
+        self.callargs = {}
+
+    def fork(self):
+        q = _Path(self.env)
+        q.definite = self.definite
+        q.reached = set(self.reached)
+        q.maybe = set(self.maybe)
+        q.soft = list(self.soft)
+        q.done = self.done
+        q.attrs = dict(self.attrs)
+        q.callargs = dict(self.callargs)
+        return q
+
+
+class _ModeEval(object):
+    LIMIT = 96
+
+    def __init__(self, mod, fn):
+        self.mod, self.fn = mod, fn
+        self.tentative = 0
+        self.locals = set(params(fn))
+        for n in walk_local(fn):
+            if isinstance(n, ast.Name) and isinstance(n.ctx, (ast.Store, ast.Del)):
+                self.locals.add(n.id)
+
+    # ---- expressions
+    def crash(self, node, why, p):
+        if self.tentative:
+            p.soft.append((node, why))
+            return _UNK
+        raise _Crash(node, why)
+
+    def mark(self, node, p):
+        (p.maybe if self.tentative else p.reached).add(id(node))
+
+    def soft_ev(self, e, p):
+        self.tentative += 1
+        try:
+            return self.ev(e, p)
+        finally:
+            self.tentative -= 1
+
+    def ev(self, e, p):
+        if e is None:
+            return _UNK
+        m = getattr(self, 'ev_' + type(e).__name__, None)
+        if m is not None:
+            return m(e, p)
+        for c in ast.iter_child_nodes(e):
+            if isinstance(c, ast.expr):
+                self.ev(c, p)
+        return _UNK
+
+    def ev_Constant(self, e, p):
+        v = e.value
+        if v is None:
+            return _NONE
+        if isinstance(v, bool):
+            return ('bool', v)
+        if isinstance(v, int):
+            return ('int', v)
+        if isinstance(v, float):
+            return _SCALAR
+        return _OBJ
+
+    def ev_Name(self, e, p):
+        return p.env.get(e.id, _UNK)
+
+    def ev_Lambda(self, e, p):
+        return _OBJ
+
+    def ev_JoinedStr(self, e, p):
+        return _OBJ
+
+    def ev_Tuple(self, e, p):
+        return ('tuple', tuple(self.ev(x.value if isinstance(x, ast.Starred) else x, p) for x in e.elts))
+
+    def ev_List(self, e, p):
+        for x in e.elts:
+            self.ev(x.value if isinstance(x, ast.Starred) else x, p)
+        return _seq(None, len(e.elts) if not any(isinstance(x, ast.Starred) for x in e.elts) else None)
+
+    def ev_UnaryOp(self, e, p):
+        v = self.ev(e.operand, p)
+        if isinstance(e.op, ast.Not):
+            t = _truth(v)
+            return _UNK if t is None else ('bool', not t)
+        if isinstance(e.op, ast.USub) and v[0] == 'int':
+            return ('int', -v[1])
+        return _UNK
+
+    def ev_BinOp(self, e, p):
+        a, b = self.ev(e.left, p), self.ev(e.right, p)
+        if a[0] == 'int' and b[0] == 'int' and isinstance(e.op, (ast.Add, ast.Sub, ast.Mult)):
+            return ('int', {ast.Add: a[1] + b[1], ast.Sub: a[1] - b[1], ast.Mult: a[1] * b[1]}[type(e.op)])
+        return _UNK
+
+    def ev_BoolOp(self, e, p):
+        is_and = isinstance(e.op, ast.And)
+        unk = False
+        av = _UNK
+        for v in e.values:
+            av = self.soft_ev(v, p) if unk else self.ev(v, p)
+            t = _truth(av)
+            if t is None:
+                unk = True
+            elif is_and and not t:
+                return ('bool', False)
+            elif not is_and and t:
+                return ('bool', True)
+        return _UNK if unk else av
+
+    def ev_IfExp(self, e, p):
+        t = _truth(self.ev(e.test, p))
+        if t is None:
+            a, b = self.soft_ev(e.body, p), self.soft_ev(e.orelse, p)
+            return a if a == b else _UNK
+        return self.ev(e.body if t else e.orelse, p)
+
+    def ev_Compare(self, e, p):
+        vals = [self.ev(e.left, p)] + [self.ev(c, p) for c in e.comparators]
+        if len(e.ops) != 1:
+            return _UNK
+        r = _av_compare(e.ops[0], vals[0], vals[1])
+        return _UNK if r is None else ('bool', r)
+
+    def ev_Attribute(self, e, p):
+        if isinstance(e.value, ast.Name) and e.value.id not in self.locals:
+            return _UNK                       # a module / global
+        v = self.ev(e.value, p)
+        if v == _NONE:
+            return self.crash(e, 'attribute `.%s` of `%s`, which is None here' % (e.attr, u(e.value)[:40]), p)
+        return _UNK
+
+    def ev_Subscript(self, e, p):
+        v = self.ev(e.value, p)
+        if isinstance(e.slice, ast.Slice):
+            for x in (e.slice.lower, e.slice.upper, e.slice.step):
+                self.ev(x, p)
+            i = None
+        else:
+            i = self.ev(e.slice, p)
+        if v == _NONE:
+            return self.crash(e, '`%s` subscripts `%s`, which is None here' % (u(e)[:50], u(e.value)[:40]), p)
+        if v[0] in ('scalar', 'int'):
+            return self.crash(e, '`%s` subscripts `%s`, which is a plain number here' % (u(e)[:50], u(e.value)[:40]), p)
+        if v[0] == 'seq':
+            if i is None:
+                return _seq(v[1], None)
+            if i[0] in ('scalar', 'int') and v[1] is not None:
+                return v[1]
+        if v[0] == 'tuple' and i is not None and i[0] == 'int' and -len(v[1]) <= i[1] < len(v[1]):
+            return v[1][i[1]]
+        return _UNK
+
+    def _comp(self, e, p, elts):
+        env0 = dict(p.env)
+        for k, g in enumerate(e.generators):
+            it = self.ev(g.iter, p) if k == 0 else self.soft_ev(g.iter, p)
+            if it == _NONE:
+                self.crash(g.iter, 'iteration over `%s`, which is None here' % u(g.iter)[:40], p)
+            self.bind(g.target, it[1] if it[0] == 'seq' and it[1] is not None else _UNK, p)
+            for c in g.ifs:
+                self.soft_ev(c, p)
+        for x in elts:
+            self.soft_ev(x, p)
+        p.env = env0
+        return _seq(None, None)
+
+    def ev_ListComp(self, e, p):
+        return self._comp(e, p, [e.elt])
+
+    ev_SetComp = ev_GeneratorExp = ev_ListComp
+
+    def ev_DictComp(self, e, p):
+        return self._comp(e, p, [e.key, e.value])
+
+    def ev_Call(self, e, p):
+        cn = call_name(e) or ''
+        last = _last(cn)
+        if isinstance(e.func, ast.Attribute):
+            self.ev(e.func, p)
+        elif not isinstance(e.func, ast.Name):
+            self.ev(e.func, p)
+        avs = [self.ev(a.value if isinstance(a, ast.Starred) else a, p) for a in e.args]
+        kws = {k.arg: self.ev(k.value, p) for k in e.keywords}
+        self.mark(e, p)
+        p.callargs[id(e)] = (avs, kws)
+        plain = not e.keywords and not any(isinstance(a, ast.Starred) for a in e.args)
+        if cn == 'hasattr' and len(avs) == 2 and plain:
+            if const_value(e.args[1]) == '__len__':
+                a = avs[0]
+                if a[0] in ('seq', 'tuple'):
+                    return ('bool', True)
+                if a[0] in ('none', 'scalar', 'int', 'bool'):
+                    return ('bool', False)
+            return _UNK
+        if cn == 'len' and len(avs) == 1 and plain:
+            a = avs[0]
+            if a[0] in ('none', 'scalar', 'int', 'bool'):
+                return self.crash(e, '`%s`: `%s` is %s here' % (u(e)[:40], u(e.args[0])[:40], 'None' if a == _NONE else 'a plain number'), p)
+            if a[0] == 'tuple':
+                return ('int', len(a[1]))
+            if a[0] == 'seq' and isinstance(a[2], int):
+                return ('int', a[2])
+            if a[0] == 'seq' and a[2] is not None:
+                return ('len', a[2])
+            return _UNK
+        if 'mpi' in cn.split('.')[:-1] and not e.args and not e.keywords:
+            if last in ('size', 'Get_size'):
+                return ('int', 1)             # serial configuration
+            if last in ('rank', 'Get_rank'):
+                return ('int', 0)
+        if cn == 'range':
+            return _seq(_SCALAR, None)
+        if cn == 'enumerate' and len(avs) == 1 and plain:
+            a = avs[0]
+            if a == _NONE:
+                return self.crash(e, '`%s`: `%s` is None here' % (u(e)[:40], u(e.args[0])[:40]), p)
+            return _seq(('tuple', (_SCALAR, a[1] if a[0] == 'seq' and a[1] is not None else _UNK)), a[2] if a[0] == 'seq' else None)
+        if last in ('copy', 'deepcopy') and len(avs) == 1 and plain:
+            return avs[0]
+        if last == 'copy' and not avs and plain and isinstance(e.func, ast.Attribute):
+            a = self.ev(e.func.value, p)
+            return a if a[0] == 'seq' else _UNK
+        if cn in ('list', 'tuple', 'sorted') and len(avs) == 1 and plain:
+            if avs[0] == _NONE:
+                return self.crash(e, '`%s`: `%s` is None here' % (u(e)[:40], u(e.args[0])[:40]), p)
+            return avs[0] if avs[0][0] == 'seq' else _UNK
+        if last in ('asarray', 'array', 'asanyarray') and len(avs) >= 1 and avs[0][0] == 'seq':
+            return avs[0]
+        return _UNK
+
+    # ---- statements
+    def bind(self, t, av, p):
+        if isinstance(t, ast.Name):
+            p.env[t.id] = av
+        elif isinstance(t, (ast.Tuple, ast.List)):
+            parts = None
+            if av[0] == 'tuple' and len(av[1]) == len(t.elts):
+                parts = list(av[1])
+            elif av[0] == 'seq' and av[1] is not None and av[2] == len(t.elts):
+                parts = [av[1]] * len(t.elts)
+            for k, x in enumerate(t.elts):
+                self.bind(x.value if isinstance(x, ast.Starred) else x, parts[k] if parts else _UNK, p)
+        elif isinstance(t, ast.Attribute):
+            self.ev(t.value, p)
+            if t.value is not None and isinstance(t.value, ast.Name) and p.env.get(t.value.id) == _NONE:
+                self.crash(t, 'attribute store on `%s`, which is None here' % t.value.id, p)
+            p.attrs[t.attr] = av
+        elif isinstance(t, ast.Subscript):
+            v = self.ev(t.value, p)
+            if not isinstance(t.slice, ast.Slice):
+                self.ev(t.slice, p)
+            if v == _NONE:
+                self.crash(t, 'store `%s[...] = ...` into `%s`, which is None here' % (u(t.value)[:40], u(t.value)[:40]), p)
+
+    def block(self, stmts, paths):
+        for s in stmts:
+            nxt = []
+            for p in paths:
+                if p.done is not None:
+                    nxt.append(p)
+                else:
+                    nxt.extend(self.stmt(s, p))
+            paths = nxt
+            if len(paths) > self.LIMIT:
+                raise _TooMany()
+        return paths
+
+    def stmt(self, s, p):
+        p.reached.add(id(s))
+        try:
+            m = getattr(self, 'st_' + type(s).__name__, None)
+            if m is None:
+                return [p]
+            return m(s, p)
+        except _Crash as c:
+            p.done = ('crash', c.node, c.why)
+            return [p]
+
+    def st_Expr(self, s, p):
+        self.ev(s.value, p)
+        return [p]
+
+    def st_Assign(self, s, p):
+        av = self.ev(s.value, p)
+        for t in s.targets:
+            self.bind(t, av, p)
+        return [p]
+
+    def st_AnnAssign(self, s, p):
+        if s.value is not None:
+            self.bind(s.target, self.ev(s.value, p), p)
+        return [p]
+
+    def st_AugAssign(self, s, p):
+        self.ev(s.value, p)
+        if isinstance(s.target, ast.Name):
+            if p.env.get(s.target.id) == _NONE:
+                self.crash(s, 'augmented assignment to `%s`, which is None here' % s.target.id, p)
+            p.env[s.target.id] = _UNK
+        else:
+            self.bind(s.target, _UNK, p)
+        return [p]
+
+    def st_Return(self, s, p):
+        self.ev(s.value, p)
+        p.done = ('return', s)
+        return [p]
+
+    def st_Raise(self, s, p):
+        p.done = ('raise', s)
+        return [p]
+
+    def st_Assert(self, s, p):
+        t = _truth(self.ev(s.test, p))
+        if t is False:
+            p.done = ('assert', s)
+        return [p]
+
+    def st_Break(self, s, p):
+        p.done = ('break',)
+        return [p]
+
+    def st_Continue(self, s, p):
+        p.done = ('continue',)
+        return [p]
+
+    def st_If(self, s, p):
+        t = _truth(self.ev(s.test, p))
+        if t is None:
+            q = p.fork()
+            p.definite = q.definite = False
+            return self.block(s.body, [p]) + self.block(s.orelse, [q])
+        return self.block(s.body if t else s.orelse, [p])
+
+    def _loop(self, s, p, sure):
+        """One trip of the body (the admitted configurations have at least one centre / one sweep); when the
+        loop is not known to run (`sure` False) what happens inside is not definite and the zero-trip path is
+        kept as well."""
+        skip = None if sure else p.fork()
+        if not sure:
+            p.definite = False
+        out = []
+        for q in self.block(s.body, [p]):
+            if q.done in (('break',), ('continue',)):
+                q.done = None
+            out.append(q)
+        if skip is not None:
+            out.append(skip)
+        live = [q for q in out if q.done is None]
+        dead = [q for q in out if q.done is not None]
+        if getattr(s, 'orelse', None):
+            live = self.block(s.orelse, live)
+        return live + dead
+
+    def st_For(self, s, p):
+        it = self.ev(s.iter, p)
+        if it == _NONE:
+            self.crash(s.iter, 'iteration over `%s`, which is None here' % u(s.iter)[:40], p)
+        self.bind(s.target, it[1] if it[0] == 'seq' and it[1] is not None else _UNK, p)
+        sure = isinstance(s.iter, ast.Name) or (isinstance(s.iter, ast.Call) and call_name(s.iter) in ('range', 'enumerate'))
+        return self._loop(s, p, sure)
+
+    def st_While(self, s, p):
+        t = _truth(self.ev(s.test, p))
+        if t is False:
+            return self.block(s.orelse, [p])
+        return self._loop(s, p, False)
+
+    def st_With(self, s, p):
+        for it in s.items:
+            self.ev(it.context_expr, p)
+            if it.optional_vars is not None:
+                self.bind(it.optional_vars, _UNK, p)
+        return self.block(s.body, [p])
+
+    def st_Try(self, s, p):
+        if s.handlers:
+            p.definite = False
+        out = []
+        for q in self.block(s.body, [p]):
+            if s.handlers and q.done is not None and q.done[0] in ('crash', 'raise', 'assert'):
+                q.done = None                 # may be handled: carry on after the statement, nothing definite
+                q.definite = False
+            out.append(q)
+        live = [q for q in out if q.done is None]
+        dead = [q for q in out if q.done is not None]
+        live = self.block(s.orelse, live)
+        live = self.block(s.finalbody, [q for q in live if q.done is None]) + [q for q in live if q.done is not None]
+        return live + dead
+
+    def run(self, env):
+        p = _Path(env)
+        return self.block(self.fn.body, [p])
+
+
+def _mode_outcome(paths):
+    """('bad', path) when EVERY path of the configuration ends in a raise / a failing assertion / a
+    dereference of None;  ('soft', (node, why)) when some path may do so on a None value;  else ('ok', live)."""
+    live = [p for p in paths if p.done is None or p.done[0] == 'return']
+    dead = [p for p in paths if p not in live]
+    if not live and dead:
+        dead.sort(key=lambda p: (not p.definite, getattr(p.done[1], 'lineno', 0)))
+        return 'bad', dead[0]
+    for p in dead:
+        if p.done[0] == 'crash':
+            return 'soft', (p.done[1], p.done[2])
+    for p in live:
+        if p.soft:
+            return 'soft', p.soft[0]
+    return 'ok', live
+
+
+def _reach(live, node):
+    a = [id(node) in p.reached for p in live]
+    m = [id(node) in p.maybe for p in live]
+    if live and all(a):
+        return 'always'
+    if not any(a) and not any(m):
+        return 'never'
+    return 'maybe'
+
+
+def _run_modes(ck, rule, mod, q, fn, modes, expectations):
+    """modes: [(description, env)];  expectations(description) -> [(node, 'always'|'never', what, why)].
+    Returns {description: live paths} for the configurations that pass."""
+    ck.analysed(mod, fn)
+    out = {}
+    for desc, env in modes:
+        full = {a: _UNK for a in params(fn)}
+        full.update(env)
+        try:
+            paths = _ModeEval(mod, fn).run(full)
+        except _TooMany:
+            ck.missing(rule, '%s, %s: too many paths' % (q, desc))
+            continue
+        kind, x = _mode_outcome(paths)
+        if kind == 'bad':
+            d = x.done
+            node = d[1]
+            what = {'raise': 'raises', 'assert': 'fails the assertion', 'crash': 'fails'}[d[0]]
+            ck.bad(rule, mod, node, q, '%s: %s' % (desc, u(node)[:120]),
+                   'for the admitted configuration "%s" %s %s at `%s`%s and never reaches the sweeps: every branch '
+                   'condition on the way is decided by the configuration (which optional arguments are None, plain '
+                   'frame indices vs (owner, frame) pairs, a serial run) - the guard that selects this branch is '
+                   'inverted, weakened or applied to the wrong argument'
+                   % (desc, q, what, u(node)[:100], ' (%s)' % d[2] if d[0] == 'crash' else ''))
+            continue
+        if kind == 'soft':
+            node, why = x
+            ck.missing(rule, '%s, %s: %s may be evaluated (%s) - the guarding condition is not decided by the configuration'
+                       % (q, desc, u(node)[:60], why[:100]))
+            continue
+        live = x
+        out[desc] = live
+        good = True
+        for node, want, what, why in expectations(desc):
+            got = _reach(live, node)
+            if got == want:
+                continue
+            good = False
+            if got == 'maybe':
+                ck.missing(rule, '%s, %s: whether %s is executed depends on a condition the configuration does not decide' % (q, desc, what))
+            else:
+                ck.bad(rule, mod, node, q, '%s: %s' % (desc, what),
+                       'for the admitted configuration "%s", %s %s in %s: %s' % (
+                           desc, what, 'is never executed' if want == 'always' else 'is executed', q, why))
+        if good:
+            ck.ok(rule, mod, fn, '%s: %s' % (q, desc), 'reaches its result without raise; the branches taken are those of the configuration')
+    return out
+
+
+def d8_modes(ck, R):
+    rule = 'C09.D8.modes'
+    mod = ck.repo.mod(KM)
+    k_flat, k_pair = _seq(_SCALAR, 'k'), _seq(_PAIR, 'k')
+
+    def named(fn, *cands):
+        ps = params(fn)
+        for c in cands:
+            if c in ps:
+                return c
+        return None
+
+    # ---- kmedoids() and the input normalisation: which start state is supplied
+    fin = mod.func(INPUTS)
+    ips = params(fin)
+    fk = mod.func('kmedoids')
+    if len(ips) >= 7:
+        X, DM, NC, A, D, CCI, XL = ips[:7]
+
+        def start_modes(m):
+            # m: role -> parameter name
+            return [
+                ('cold start (n_clusters only)', {m[CCI]: _NONE, m[NC]: _OBJ, m[A]: _NONE, m[D]: _NONE, m[XL]: _NONE}),
+                ('state inferred from (assignments, distances)', {m[CCI]: _NONE, m[NC]: _NONE, m[A]: _OBJ, m[D]: _OBJ, m[XL]: _NONE}),
+                ('warm start (centre indices, assignments, distances)', {m[CCI]: k_flat, m[NC]: _NONE, m[A]: _OBJ, m[D]: _OBJ, m[XL]: _NONE}),
+                ('warm start with n_clusters', {m[CCI]: k_flat, m[NC]: _OBJ, m[A]: _OBJ, m[D]: _OBJ, m[XL]: _NONE}),
+                ('warm start, centres as (trajectory, frame) + X_lengths', {m[CCI]: k_pair, m[NC]: _NONE, m[A]: _OBJ, m[D]: _OBJ, m[XL]: _OBJ}),
+                ('centre indices only', {m[CCI]: k_flat, m[NC]: _NONE, m[A]: _NONE, m[D]: _NONE, m[XL]: _NONE}),
+            ]
+        fi = finfo(mod, fin)
+        draws = [c for c in calls_in(fin) if isinstance(c.func, ast.Attribute) and c.func.attr in (
+            'choice', 'permutation', 'randint', 'integers', 'random_integers', 'sample', 'shuffle')]
+        finds = [c for c in calls_in(fin) if _last(call_name(c)) == 'find_cluster_centers']
+        assigns = [c for c in calls_in(fin) if _last(call_name(c)) == 'assign_to_nearest_center']
+        convs = []
+        for s in assigns_to(fin, CCI):
+            if isinstance(s, ast.Assign) and fi.def_value(s, CCI) is not None and XL in names_loaded(fi.expand(fi.def_value(s, CCI), stop=(CCI, XL))):
+                convs.append(s)
+
+        def expect_inputs(desc):
+            cold = desc.startswith('cold')
+            out = []
+            for c in draws:
+                out.append((c, 'always' if cold else 'never', 'the random draw of initial centres `%s`' % u(c)[:60],
+                            'initial centres are drawn exactly when neither centres nor a state are supplied; a supplied '
+                            'state must reach the sweeps as it is'))
+            for c in finds:
+                out.append((c, 'always' if desc.startswith('state inferred') else 'never', 'the inference of the centres `%s`' % u(c)[:60],
+                            'the centres are inferred from (assignments, distances) exactly when these are supplied without centre indices'))
+            for c in assigns:
+                out.append((c, 'always' if cold or desc.startswith('centre indices only') else 'never',
+                            'the assignment of all frames to the start centres `%s`' % u(c)[:60],
+                            'labels and distances are computed exactly when they are not supplied; supplied labels/distances '
+                            'must not be replaced'))
+            for s in convs:
+                out.append((s, 'always' if '(trajectory, frame)' in desc else 'never',
+                            'the (trajectory, frame) -> frame index conversion `%s`' % u(s)[:60],
+                            'centre indices are converted through the trajectory lengths exactly when they are given as pairs'))
+            return out
+        _run_modes(ck, rule, mod, INPUTS, fin, start_modes({p: p for p in ips[:7]}), expect_inputs)
+
+        # kmedoids(): roles of its parameters through the call of the input normalisation
+        fik = finfo(mod, fk)
+        ic = [c for c in calls_in(fk) if _last(call_name(c)) == INPUTS]
+        role = {}
+        for c in ic[:1]:
+            b = _bind(c, fin, mod)
+            for p_ in (NC, A, D, CCI, XL):
+                r = _param_root(fik, b.get(p_), through=()) if b is not None and b.get(p_) is not None else None
+                role[p_] = r if r is not None else (p_ if p_ in params(fk) else None)
+        if len(role) == 5 and all(role.values()) and len(set(role.values())) == 5:
+            mpis = [c for c in calls_in(fk) if _last(call_name(c)) == INPUTS + '_mpi']
+            sweeps = [c for c in calls_in(fk) if _last(call_name(c)) == SWEEPS]
+
+            def expect_k(desc):
+                out = [(c, 'always', 'the serial input normalisation `%s(...)`' % INPUTS, 'a serial run (mpi.size() == 1) normalises its start state through %s' % INPUTS) for c in ic]
+                out += [(c, 'never', 'the MPI input normalisation `%s_mpi(...)`' % INPUTS, 'a serial run (mpi.size() == 1) must not take the MPI path') for c in mpis]
+                out += [(c, 'always', 'the sweeps `%s(...)`' % SWEEPS, 'the sweeps are the result of kmedoids()') for c in sweeps]
+                return out
+            _run_modes(ck, rule, mod, 'kmedoids', fk, start_modes(role), expect_k)
+        else:
+            ck.missing(rule, 'roles of the parameters of kmedoids() (through its call of %s)' % INPUTS)
+    else:
+        ck.missing(rule, 'parameters of %s' % INPUTS)
+
+    # ---- library use: args is None -> nothing of the application's output code runs
+    for rel, q in ((KM, SWEEPS), (HY, 'hybrid')):
+        m = ck.repo.mod(rel)
+        f = m.func(q)
+        a = named(f, 'args')
+        if a is not None and isinstance(param_default(f, a), ast.Constant) and param_default(f, a).value is None:
+            _run_modes(ck, rule, m, q, f, [('library call (args=None)', {a: _NONE})], lambda d: [])
+
+    # ---- estimator constructor: one of n_clusters / cluster_radius suffices; serial by default
+    mh = ck.repo.mod(HY)
+    init = mh.functions.get('KHybrid.__init__')
+    if init is not None:
+        nc, cr, mm = named(init, 'n_clusters'), named(init, 'cluster_radius'), named(init, 'mpi_mode')
+        if nc and cr:
+            base = {mm: _NONE} if mm else {}
+            lives = _run_modes(ck, rule, mh, 'KHybrid.__init__', init, [
+                ('KHybrid(metric, n_clusters=k)', dict(base, **{nc: _OBJ, cr: _NONE})),
+                ('KHybrid(metric, cluster_radius=r)', dict(base, **{nc: _NONE, cr: _OBJ})),
+                ('KHybrid(metric, n_clusters=k, cluster_radius=r)', dict(base, **{nc: _OBJ, cr: _OBJ}))], lambda d: [])
+            for desc, live in lives.items():
+                vals = {p.attrs.get(mm) for p in live} if mm else set()
+                if vals == {('bool', True)}:
+                    st = [s for s in walk_local(init) if isinstance(s, ast.Assign) and any(
+                        isinstance(t, ast.Attribute) and t.attr == mm for t in s.targets)]
+                    ck.bad(rule, mh, st[0] if st else init, 'KHybrid.__init__', 'self.%s in a serial run' % mm,
+                           'with %s=None in a serial run (mpi.size() == 1) the estimator must select the serial algorithm; '
+                           'here self.%s is True: both stages run their MPI variant and the centre indices come back as '
+                           '(rank, frame) pairs' % (mm, mm))
+                    break
+
+    # ---- the PAM update: explicit proposals vs random draw; plain indices vs (owner, frame) pairs
+    if R is None:
+        return
+    fn = R.fn
+    P = R.proposals or named(fn, 'proposals')
+    n = 'n'
+    common = {R.X: _seq(None, n), R.pA: _seq(_SCALAR, n), R.pD: _seq(_SCALAR, n)}
+    if P is None:
+        ck.missing(rule, 'parameter of %s that carries the explicit proposals' % PAM)
+        return
+    modes = [('serial, random proposals', dict(common, **{R.pMI: k_flat, P: _NONE})),
+             ('serial, explicit proposals', dict(common, **{R.pMI: k_flat, P: k_flat})),
+             ('(owner, frame) indices, random proposals', dict(common, **{R.pMI: k_pair, P: _NONE})),
+             ('(owner, frame) indices, explicit proposals', dict(common, **{R.pMI: k_pair, P: k_pair}))]
+    fnp = mod.func(PROPOSER)
+    pcalls = [c for c in calls_in(fn) if _last(call_name(c)) == PROPOSER]
+    dfr = [c for c in calls_in(fn) if _last(call_name(c)) == 'distribute_frame']
+
+    def expect_pam(desc):
+        out = []
+        for c in pcalls:
+            out.append((c, 'always' if 'random' in desc else 'never', 'the random draw `%s(...)`' % PROPOSER,
+                        'a proposal is drawn exactly when no explicit proposals are supplied (explicit proposals make the outcome reproducible)'))
+        if desc.startswith('serial'):
+            for c in dfr:
+                out.append((c, 'never', 'the fetch `%s`' % u(c)[:70], 'with plain frame indices every coordinate is a frame of the local data; '
+                            'distribute_frame needs an (owner, frame) pair'))
+        return out
+    lives = _run_modes(ck, rule, mod, PAM, fn, modes, expect_pam)
+    # the flag handed to the proposer says which kind of index this run uses
+    pps = params(fnp)
+    if len(pps) >= 3:
+        for desc, live in lives.items():
+            want = not desc.startswith('serial')
+            for c in pcalls:
+                b = _bind(c, fnp, mod)
+                arg = b.get(pps[2]) if b is not None else None
+                if arg is None:
+                    continue
+                vals = set()
+                for p in live:
+                    avs, kws = p.callargs.get(id(c), ([], {}))
+                    for k, a_ in enumerate(c.args):
+                        if a_ is arg and k < len(avs):
+                            vals.add(avs[k])
+                    for kw in c.keywords:
+                        if kw.value is arg:
+                            vals.add(kws.get(kw.arg))
+                if vals == {('bool', not want)}:
+                    ck.bad(rule, mod, c, PAM, '%s: %s=%s' % (desc, pps[2], u(arg)[:60]),
+                           'the proposer is told %s=%s although the centre indices of this run are %s: it returns the other '
+                           'kind of index, which is committed into the index list' % (
+                               pps[2], not want, 'plain frame numbers' if not want else '(owner, frame) pairs'))
+    # ---- the proposer: serial draw iff not mpi_mode
+    if len(pps) >= 4:
+        ser = [c for c in calls_in(fnp) if isinstance(c.func, ast.Attribute) and c.func.attr == 'choice']
+        par = [c for c in calls_in(fnp) if _last(call_name(c)) in ('randind', 'distribute_frame')]
+
+        def expect_prop(desc):
+            s = desc.startswith('serial')
+            return [(c, 'always' if s else 'never', 'the serial draw `%s`' % u(c)[:60], 'the serial draw returns a plain frame index') for c in ser] + \
+                   [(c, 'never' if s else 'always', 'the MPI step `%s`' % u(c)[:60], 'the MPI draw returns an (owner, frame) pair') for c in par]
+        _run_modes(ck, rule, mod, PROPOSER, fnp, [('serial (%s=False)' % pps[2], {pps[2]: ('bool', False)}),
+                                                 ('MPI (%s=True)' % pps[2], {pps[2]: ('bool', True)})], expect_prop)
 
 
 def fact_node(f):
@@ -2450,4 +3594,7 @@ def check(ck):
     _guarded(ck, 'C09.D8.cold-start.distinct-draw', d8_cold_draw, ck)
     _guarded(ck, 'C09.D5.seed.per-run', d5_seed_per_run, ck, seed)
     _guarded(ck, 'C09.D9.start-state-assert', d9_start_state_asserts, ck)
+    _guarded(ck, 'C09.D8.modes', d8_modes, ck, R)
+    _guarded(ck, 'C09.D3.data-metric', d3_data_metric, ck, R)
+    _guarded(ck, 'C09.D9.sweep-asserts', d9_sweep_asserts, ck, R)
     return EXPLANATION
